@@ -10,6 +10,7 @@
 import json
 import os
 import random
+import shutil
 from concurrent.futures import ThreadPoolExecutor
 
 import vlib
@@ -26,6 +27,7 @@ KIND_CLASS = {
 }
 KINDS = list(KIND_CLASS)
 CLASSES = sorted(set(KIND_CLASS.values()))
+NREP = 60                     # re-executions of a rejected script (racy defects reproduce rarely)
 WS_CLOSE_DEADLINE_MS = 300   # http/stream.go closeReadWriteDeadline is 500 ms: results observed later
                              # than this after the handler's return are transport-failure territory
 
@@ -73,11 +75,10 @@ CONSTANTS
   Kinds = %s
   CloseNeedsRoom = FALSE
 INVARIANTS %s
-PROPERTIES %s
 CONSTRAINT Mark
 POSTCONDITION Accepted
 CHECK_DEADLOCK FALSE
-""" % (tla_set(CLASSES), INVS, ACTS)
+""" % (tla_set(CLASSES), INVS)   # the action properties are checked on Stream.tla; a reset step is not a Stream step
 
 RESET = {"ev": "reset", "s": "", "op": "", "id": 0, "res": "", "k": ""}
 
@@ -187,12 +188,12 @@ def validate(ctx, items, tag, chunk_size=400, par=4, max_bad=6):
     chunks = [items[i:i + chunk_size] for i in range(0, len(items), chunk_size)]
     ctx.spec_copy(AREA)    # not thread-safe on first use
     rejections = []
-    stats = {"distinct": 0, "generated": 0, "accepted": 0}
+    stats = {"distinct": 0, "generated": 0, "accepted": 0, "set_aside": 0}
 
     def work(args):
         ci, chunk = args
         found = []
-        st = [0, 0, 0]
+        st = [0, 0, 0, 0]
         rounds = 0
         while chunk and rounds <= max_bad:
             rounds += 1
@@ -203,9 +204,14 @@ def validate(ctx, items, tag, chunk_size=400, par=4, max_bad=6):
                 st[2] += len(chunk)
                 break
             pos, idx, why = res["bad"]
-            found.append((chunk[pos][0], chunk[pos][1], idx, why))
+            bj = chunk[pos][0]
+            found.append((bj, chunk[pos][1], idx, why))
             st[2] += pos
-            chunk = chunk[pos + 1:]
+            # the remaining scripts of the same transport and error variant would most likely be
+            # rejected for the same reason: they are set aside (counted, not validated)
+            rest = chunk[pos + 1:]
+            chunk = [c for c in rest if not (c[0]["tr"] == bj["tr"] and c[0]["kind"] == bj["kind"])]
+            st[3] += len(rest) - len(chunk)
         return found, st
 
     with ThreadPoolExecutor(max_workers=par) as ex:
@@ -214,6 +220,7 @@ def validate(ctx, items, tag, chunk_size=400, par=4, max_bad=6):
             stats["distinct"] += st[0]
             stats["generated"] += st[1]
             stats["accepted"] += st[2]
+            stats["set_aside"] += st[3]
     return stats, rejections
 
 
@@ -290,14 +297,44 @@ def describe(job, evs, idx):
     return e, " ".join(hist[-16:])
 
 
-def signature(job, e, why):
+def signature(job, e, why, evs=None, idx=None):
     tr = job["tr"]
+    if evs is not None and idx is not None and e.get("s") == "c" and e.get("ev") == "ret" and not why.startswith("invariant"):
+        term_before = any(x["ev"] == "ret" and x["s"] == "c" and x["op"] == "recv" and x["res"] != "msg" for x in evs[:idx])
+        if term_before and e.get("op") == "recv":
+            return "C14 %s client Receive after the terminal result returned something else (%s)" % (tr, e.get("res", "?").split(":")[0])
+        if term_before and e.get("op") == "send":
+            return "C14 %s client Send after the terminal result returned %s" % (tr, e.get("res", "?").split(":")[0])
     if why.startswith("invariant"):
         return "C14 %s trace breaks %s" % (tr, why.split()[-1])
     word = e.get("res", "?").split(":")[0]
+    exp = KIND_CLASS.get(job["kind"], "?")
+    exp = "eof" if exp in ("nil", "eof") else exp
+    if e.get("s") == "c" and e.get("op") == "recv" and word == exp:
+        return "C14 %s client Receive returned the terminal result while responses were outstanding" % tr
     if e.get("s") == "c" and e.get("op") == "recv" and word != "msg":
         return "C14 %s client Receive terminal kind=%s observed=%s" % (tr, job["kind"], word)
     return "C14 %s %s.%s result %s not allowed" % (tr, e.get("s"), e.get("op"), word)
+
+
+def is_drift(job, evs, idx, why):
+    """Disagreements about what Stream.tla pins beyond the property statement (module header):
+    CloseSend's return value, the handler's Send result while it is running, and the result of a
+    client Send while the handler has not been asked to return (nil, or StreamClosed after CloseSend)."""
+    if why.startswith("invariant") or not (0 <= idx < len(evs)):
+        return False
+    e = evs[idx]
+    if e["ev"] != "ret":
+        return False
+    if e["s"] == "c" and e["op"] == "close":
+        return True
+    if e["s"] == "h" and e["op"] == "send":
+        return True
+    if e["s"] == "c" and e["op"] == "send":
+        before = evs[:idx]
+        ret_called = any(x["ev"] == "call" and x["s"] == "h" and x["op"] == "ret" for x in before)
+        return not ret_called
+    return False
 
 
 def confirm_and_report(ctx, rejections, thorough, tagp):
@@ -305,18 +342,24 @@ def confirm_and_report(ctx, rejections, thorough, tagp):
     rejection reproduces."""
     done = set()
     nrep = 0
+    drifts = []
+    # verdict-bearing rejections first
+    rejections = sorted(rejections, key=lambda r: is_drift(*r))
     for job, evs, idx, why in rejections:
         e, hist = describe(job, evs, idx)
-        sig = signature(job, e, why)
+        sig = signature(job, e, why, evs, idx)
         if sig in done:
             continue
         done.add(sig)
+        if is_drift(job, evs, idx, why):
+            drifts.append("%s | %s" % (sig, hist))
+            continue
         nrep += 1
         if nrep > 8:
             break
         copies = []
         rnd = random.Random(ctx.seed * 7919 + nrep)
-        for c in range(20):
+        for c in range(NREP):
             j = dict(job, i=c, jit=(job["jit"] if c == 0 else rnd.randrange(1, 1 << 30)))
             copies.append(j)
         by, _ = run_jobs(ctx, copies, "%s_re%d" % (tagp, nrep), workers=2)
@@ -327,21 +370,23 @@ def confirm_and_report(ctx, rejections, thorough, tagp):
             if row["status"] != "ok":
                 continue
             items.append((j, to_events(j, row, findings)))
-        _, rej2 = validate(ctx, items, "%s_rv%d" % (tagp, nrep), chunk_size=1, par=4, max_bad=1)
-        rej2 = [r for r in rej2 if signature(r[0], describe(r[0], r[1], r[2])[0], r[3]) == sig]
+        # 4 batches; the first rejected trace of a batch ends it (the rest is set aside)
+        _, rej2 = validate(ctx, items, "%s_rv%d" % (tagp, nrep), chunk_size=(NREP + 3) // 4, par=4, max_bad=1)
+        rej2 = [r for r in rej2 if signature(r[0], describe(r[0], r[1], r[2])[0], r[3], r[1], r[2]) == sig]
         if not rej2:
-            raise vlib.Inconclusive("rejected trace did not reproduce in 20 re-executions: %s | %s" % (sig, hist))
+            raise vlib.Inconclusive("rejected trace did not reproduce in %d re-executions" % NREP + ": %s | %s" % (sig, hist))
         fast = [r for r in rej2 if not slow(r)]
         if not fast:
             raise vlib.Inconclusive("rejection only seen > %d ms after the handler returned (ws close deadline): %s" % (
                 WS_CLOSE_DEADLINE_MS, sig))
         j2, ev2, idx2, why2 = fast[0]
         e2, hist2 = describe(j2, ev2, idx2)
-        ctx.report(sig, "%s transport, handler returns %s: %s -> %s.%s returned %s%s, which no behaviour of Stream.tla allows (%s); reproduced in %d/20 re-executions" % (
+        ctx.report(sig, "%s transport, handler returns %s: %s -> %s.%s returned %s%s, which no behaviour of Stream.tla allows (%s); reproduced in %d of 4 batches of %d re-executions" % (
             j2["tr"], j2["kind"], hist2, e2.get("s"), e2.get("op"), e2.get("res"),
-            (" [" + e2.get("_txt", "") + "]") if e2.get("_txt") else "", why2, len(rej2)),
+            (" [" + e2.get("_txt", "") + "]") if e2.get("_txt") else "", why2, len(rej2), NREP // 4),
             {"job": j2, "events": [strip(x) for x in ev2], "unexplained_index": idx2, "why": why2,
              "cmd": "python3 tools/verif.py replay C14 <this file>"})
+    return drifts
 
 
 def slow(rej):
@@ -364,7 +409,7 @@ def report_panics(ctx, findings):
         # minimal reproduction: the shortest script among the hits
         f = min(fs, key=lambda x: len(x["job"]["ev"]))
         job = f["job"]
-        ctx.report(sig, "%s transport: %s.%s panicked with %r %s (%d scripts); C14 requires further calls to keep returning the same terminal result" % (
+        ctx.report(sig, "%s transport: %s.%s panicked with %r %s (%d occurrences); C14 requires further calls to keep returning the same terminal result" % (
             job["tr"], f["side"], f["op"], f["panic"],
             "on a Receive issued after the terminal result had been returned" if f["after_terminal"] else "",
             len(fs)),
@@ -389,10 +434,10 @@ def directed_jobs(start, thorough):
     scripts = []
     base = seq("c.send", "h.recv", "h.send", "h.send", "c.close", "h.recv", "c.recv", "h.ret", "c.send", "c.recv")
     for k in KINDS:
-        scripts.append((base, k, 1))
+        scripts.append((base, k, 2))
     half = seq("c.send", "c.send", "c.close", "c.send", "h.recv", "h.recv", "h.recv", "h.recv", "h.send", "c.recv", "h.send")
-    scripts.append((half, "custom", 2))
-    scripts.append((half, "nil", 2))
+    scripts.append((half, "custom", 3))
+    scripts.append((half, "nil", 3))
     # Send racing with the handler's return
     race = [{"e": "call", "s": "h", "op": "ret"}, {"e": "call", "s": "c", "op": "send"},
             {"e": "ret", "s": "c", "op": "send"}, {"e": "ret", "s": "h", "op": "ret"}] + seq("c.send", "c.send")
@@ -442,7 +487,7 @@ def run(ctx):
     if not thorough:
         plan = [(1, 2, 8, "bfs", 700), (0, 2, 8, "bfs", 500), (2, 3, 14, "sim", 500), (0, 2, 12, "sim", 300)]
     else:
-        plan = [(1, 2, 8, "bfs", None), (0, 2, 8, "bfs", None), (2, 2, 8, "bfs", None),
+        plan = [(1, 2, 10, "bfs", None), (0, 2, 10, "bfs", None), (2, 2, 8, "bfs", None),
                 (2, 3, 14, "sim", 4000), (1, 3, 16, "sim", 4000), (0, 3, 14, "sim", 3000), (3, 4, 18, "sim", 2000)]
     jobs = []
     gen_info = []
@@ -488,19 +533,24 @@ def run(ctx):
             if e["ev"] == "ret":
                 key = "%s:%s.%s=%s" % (j["tr"], e["s"], e["op"], e["res"].split(":")[0])
                 mech[key] = mech.get(key, 0) + 1
-    if bad_status:
-        j, row = bad_status[0]
-        # starvation / open failure is never a verdict
-        raise vlib.Inconclusive("%d of %d scripts did not complete (first: %s %s: %s)" % (
-            len(bad_status), len(jobs), j["tr"], row["status"], row.get("note")))
-
     # 4. trace validation
     stats, rejections = validate(ctx, items, "main", chunk_size=500 if thorough else 350, par=5)
     states += stats["distinct"]
     trans += stats["generated"]
     report_panics(ctx, findings)
+    drifts = []
     if rejections:
-        confirm_and_report(ctx, rejections, thorough, "main")
+        drifts = confirm_and_report(ctx, rejections, thorough, "main")
+    if drifts and not ctx.violations and not ctx.known_hits:
+        raise vlib.Inconclusive("DRIFT (real results differ from Stream.tla on points the property does not state): %s" % "; ".join(drifts[:3]))
+    if drifts:
+        ctx.notes.append("drift: %s" % "; ".join(drifts[:3]))
+
+    if bad_status and not ctx.violations:
+        j, row = bad_status[0]
+        # starvation / open failure alone is never a verdict
+        raise vlib.Inconclusive("%d of %d scripts did not complete (first: %s %s: %s)" % (
+            len(bad_status), len(jobs), j["tr"], row["status"], row.get("note")))
 
     # vacuity of the binding: the mechanisms the clauses talk about were exercised on every transport
     need = []
@@ -508,10 +558,15 @@ def run(ctx):
         for key in ("c.recv=msg", "h.recv=msg", "h.recv=eof", "c.recv=eof", "c.recv=custom", "c.send=eof", "c.send=closed"):
             if mech.get("%s:%s" % (tr, key), 0) == 0:
                 need.append("%s:%s" % (tr, key))
-    if need:
+    if need and not ctx.violations:
         raise vlib.Inconclusive("mechanisms never exercised: %s" % need)
 
-    big = sum(1 for j in jobs if max(j["szc"] + j["szh"]) >= 65536)
+    big = 0
+    for j in jobs:
+        nc = sum(1 for e in j["ev"] if e["e"] == "call" and e["s"] == "c" and e["op"] == "send")
+        nh = sum(1 for e in j["ev"] if e["e"] == "call" and e["s"] == "h" and e["op"] == "send")
+        if max([0] + j["szc"][:nc] + j["szh"][:nh]) >= 65536:
+            big += 1
     cov = {
         "states": states, "transitions": trans,
         "traces_validated_against_impl": stats["accepted"],
@@ -526,6 +581,7 @@ def run(ctx):
         "scripts_with_payload_ge_64KiB": big,
         "results_seen": {k: v for k, v in sorted(mech.items()) if v},
         "recovered_panics": len(findings),
+        "traces_rejected": len(rejections), "traces_set_aside_after_rejection": stats["set_aside"],
         "harness_wall_s": round(wall, 1),
         "rule": "every generated script (call/ret events of both sides, overlapping as generated) is executed on mock, "
                 "WebSocket and gRPC with a draining/stability epilogue; each recorded trace must be a behaviour of "
@@ -554,6 +610,7 @@ def replay(ctx, path):
             raise vlib.Inconclusive("script did not complete: %s" % row.get("note"))
         items.append((j, to_events(j, row, findings)))
     _, rej = validate(ctx, items, "replay", chunk_size=1, par=4, max_bad=1)
+    shutil.rmtree(ctx.build, ignore_errors=True)
     if findings or rej:
         print("VIOLATION property=C14 replay=%s" % path)
         if findings:
@@ -564,3 +621,42 @@ def replay(ctx, path):
         return 1
     print("replay: script passes on the current tree (10 executions)")
     return 0
+
+
+def selftest(ctx):
+    """Binding self-test: real traces of the directed scripts are accepted; the same traces with one
+    observation corrupted (message order swapped, terminal class changed, a response dropped, a
+    duplicate delivery) must each be rejected by StreamTrace.tla."""
+    jobs = [j for j in directed_jobs(0, False) if j["kind"] in ("custom", "nil") and j["jit"] == 0 and j["tr"] != "ws"][:6]
+    for n, j in enumerate(jobs):
+        j["i"] = n
+    by, _ = run_jobs(ctx, jobs, "self", workers=2)
+    findings = []
+    items = [(j, to_events(j, by[j["i"]], findings)) for j in jobs if by[j["i"]]["status"] == "ok"]
+    if len(items) != len(jobs):
+        raise vlib.Inconclusive("selftest scripts did not complete")
+    _, rej = validate(ctx, items, "self_ok", chunk_size=10, par=1)
+    if rej:
+        print("selftest: genuine traces rejected: %s" % describe(rej[0][0], rej[0][1], rej[0][2])[1])
+        return 1
+    job, evs = items[0]
+    msgs = [k for k, e in enumerate(evs) if e["ev"] == "ret" and e["s"] == "c" and e["res"] == "msg"]
+    terms = [k for k, e in enumerate(evs) if e["ev"] == "ret" and e["s"] == "c" and e["op"] == "recv" and e["res"] not in ("msg",)]
+    if len(msgs) < 2 or not terms:
+        raise vlib.Inconclusive("selftest script lacks two responses and a terminal")
+    import copy
+    variants = {}
+    v = copy.deepcopy(evs); v[msgs[0]]["id"], v[msgs[1]]["id"] = v[msgs[1]]["id"], v[msgs[0]]["id"]; variants["reordered"] = v
+    v = copy.deepcopy(evs); v[msgs[1]]["id"] = v[msgs[0]]["id"]; variants["duplicate"] = v
+    v = copy.deepcopy(evs); v[terms[0]]["res"] = "closed"; variants["wrong terminal class"] = v
+    v = copy.deepcopy(evs); v[msgs[1]]["res"] = v[terms[0]]["res"]; variants["terminal before last response"] = v
+    v = copy.deepcopy(evs); v[terms[-1]]["res"] = "eof" if v[terms[-1]]["res"] != "eof" else "custom"; variants["unstable terminal"] = v
+    bad = 0
+    for name, v in variants.items():
+        _, rej = validate(ctx, [(job, v)], "self_" + name.replace(" ", "_"), chunk_size=1, par=1)
+        if not rej:
+            print("selftest: corrupted trace (%s) was accepted" % name)
+            bad += 1
+    print("selftest: %d genuine traces accepted, %d/%d corrupted traces rejected" % (len(items), len(variants) - bad, len(variants)))
+    shutil.rmtree(ctx.build, ignore_errors=True)
+    return 1 if bad else 0
